@@ -23,7 +23,7 @@ Definition sk_of (c : ascii) : option skind := match digit c with Some n => nth_
 
 Definition all_trans : list trans :=
   [TOMPDo; TOMPParallelDo; TOMPTeamsParDo; TOMPLoop; TOMPParallelLoop; TOMPTaskloop; TACCLoop;
-   TOMPParallel; TOMPSingle; TOMPMaster; TOMPTarget; TACCParallel; TACCKernels; TACCData; TACCEnterData].
+   TOMPParallel; TOMPSingle; TOMPMaster; TOMPTarget; TACCParallel; TACCKernels; TACCData; TACCEnterData; TACCRoutine].
 Definition tr_of (c : ascii) : option trans := match digit c with Some n => nth_error all_trans n | None => None end.
 
 Definition coll_of (c : ascii) : option (option nat) :=
